@@ -310,4 +310,13 @@ def connect (aesni : Bool) (sites : List Casket.VHost.Site) (cfgs : List Cfg) (n
   | .plain => (.plain, serveTLS sites cfgs ⟨name, path, 1⟩ none)          -- plaintext listener
   | sel => (sel, serveTLS sites cfgs ⟨name, path, 1⟩ (some name))
 
+/-- the same listener, the two names of a connection taken apart: the ClientHello carries `sni`
+(it alone decides which config governs the handshake), the request sent over that connection
+carries Host `host` (it alone decides the site; the strict check then compares the two) -/
+def connectSH (aesni : Bool) (sites : List Casket.VHost.Site) (cfgs : List Cfg) (sni host path : Bytes) : Obs × Served :=
+  match pipeline aesni cfgs sni none with
+  | .error n => (.error n, .notFound 0)                                   -- NewServer fails: no listener
+  | .plain => (.plain, serveTLS sites cfgs ⟨host, path, 1⟩ none)          -- plaintext listener
+  | sel => (sel, serveTLS sites cfgs ⟨host, path, 1⟩ (some sni))
+
 end Casket.TLSGroup
